@@ -5,7 +5,7 @@ import hirq, anchors, absx, sem, driver
 EXPLANATION = ("K1 pairing: every removal of a routing entry in the driver loop (result delivered, search done / receiver gone, scrub, "
                "abandon) is followed, on every enumerated path of its arm and before the arm is left by any exit (falling out, continue, break, return), by the release of the same message ID from the in-use set - unless the same sender is put back; K2 the "
                "Abandon request's own, never-answered ID is released in its arm; K3 Abandon: request [APPLICATION 16] INTEGER msgid and "
-               "LdapOp::Abandon(msgid) carry the same parameter, and the arm drops both routing entries of that ID (which fails the "
+               "LdapOp::Abandon(msgid) carry the same parameter, and on every path of the request arm an Abandon can take - also one that leaves the arm before the kind of operation is looked at - the request is written to the transport and both routing entries of that ID are dropped (which fails the "
                "waiting caller); K4 every routing map has a removal site for each terminal event class (response, scrub, abandon); "
                "K6 a stream finished before its end scrubs its own ID. Not decided: quiescence over arbitrary histories as a runtime "
                "fact; futures dropped mid-flight.")
@@ -74,34 +74,57 @@ def run(ctx):
     hir_k3 = any(hirq.strip_casts(L.origin(r['args'][0])) == ab_payload for r in ab_rel)
     # (decided below on the enumerated paths of the arm, where a release spelled differently - e.g. one `retain` that rejects both
     # IDs - is read as the removals it amounts to; the syntactic reading above is kept as the quick answer when it applies)
-    # K2 / K3 on the enumerated paths of the request arm: whenever an Abandon was written to the socket, its own ID (which the
-    # server never answers) is released, both routing entries of the abandoned ID are dropped, and the abandoned ID is released
-    # at least when one of those entries existed
+    # K2 / K3 on the enumerated paths of the request arm: on every path an Abandon request can take (see below) the request is
+    # written to the socket, its own ID (which the server never answers) is released, both routing entries of the abandoned ID are
+    # dropped, and the abandoned ID is released at least when one of those entries existed
     REQ = ('variant', driver.ARM, 'Some', 0)
     OWN, OP = ('field', REQ, '0'), ('field', REQ, '1')
     PAY = ('variant', OP, 'LdapOp::Abandon', 0)
     aouts, _I = driver.arm_paths(C, 'request')
     n_ab = 0
+    # Which paths: every path of the arm that took a request from the channel and on which that request can be an Abandon - the path
+    # condition says so, or does not say otherwise (a path that leaves the arm before it has looked at the kind of operation is a
+    # path an Abandon takes as well: Abandon's effect must not depend on anything else the arm may test first, such as whether
+    # anyone still listens on the request's own reply channel) - and that goes on serving: falling out of the arm, `continue`,
+    # `break`, `return Ok`.  Not asked: paths on which the driver ends with an error (a failed socket write): every routing entry,
+    # sender and ID goes with the connection.
+    OPS = ('LdapOp::Single', 'LdapOp::Search', 'LdapOp::Abandon', 'LdapOp::Unbind')
+    EXIT = {'val': 'falling out of the arm', 'cont': '`continue`', 'brk': '`break`', 'ret': '`return`', 'loop': 'an inner loop'}
     for o in aouts:
-        if o.kind not in ('val', 'cont', 'brk') or absx.pc_variant(o.st.pc, lambda v: v == OP, 'LdapOp::Abandon') is not True:
+        if o.kind == 'div' or absx.pc_variant(o.st.pc, lambda v: v == driver.ARM, 'Some') is not True:
+            continue
+        if o.kind == 'ret' and sem.is_err_result(o.val):
+            continue
+        is_ab = sem.variant_truth(o.st.pc, lambda v: v == OP, 'LdapOp::Abandon', OPS)
+        if is_ab is False:
             continue
         n_ab += 1
         rel = [args[1] for i, name, args, node in driver.map_calls(C, o, 'idset', ('remove',))]
         un_r = [(args[1], node) for i, name, args, node in driver.map_calls(C, o, 'result', ('remove',))]
         un_s = [(args[1], node) for i, name, args, node in driver.map_calls(C, o, 'search', ('remove',))]
         sig = ','.join(('' if t else '!') + absx.fmt(a)[-30:] for a, t in o.st.pc if a[0] == 'is' and sem.has(a[1], lambda x: x[0] == 'call' and x[1].endswith('::remove')))
+        if is_ab is None:
+            sig = (sig + '|' if sig else '') + 'kind of operation not looked at'
+        early = '' if is_ab else ' (the path leaves the arm by %s before it has looked at the kind of operation, so an Abandon takes it too)' % EXIT.get(o.kind, o.kind)
+        # the AbandonRequest goes out: this request's own (ID, request, controls) is written to the transport, the write is awaited
+        # and the path is not the one on which it failed
+        wires = [(i, ('call', cal, tuple(args), node.get('id'))) for i, cal, args, node in sem.calls(o, lambda c: c.rsplit('::', 1)[-1] == 'send')
+                 if 'Framed<' in sem.recv_ty(node) and len(args) == 2 and args[1] == ('tuple', (OWN, ('field', REQ, '2'), ('field', REQ, '3')))]
+        written = any(any(t == w for _j, t, _n in sem.awaits(o)) and not sem.failed(o, lambda v, w=w: v == ('await', w)) for _i, w in wires)
+        ctx.add('K3.abandon-request-written', 'paths|' + (sig or 'plain'), loc(req['body']), written,
+                'a path of the request arm that an Abandon takes does not write the request to the transport: the server never learns that the operation was abandoned%s' % early)
         ctx.add('K2.abandon-own-id-released', 'abandon arm|' + (sig or 'plain'), loc(req['body']), OWN in rel,
-                'a path of the Abandon arm does not release the Abandon request\'s own message ID (never answered by the server): it stays reserved forever')
+                'a path of the Abandon arm does not release the Abandon request\'s own message ID (never answered by the server): it stays reserved forever' + early)
         ctx.add('K3.abandon-unroutes', 'paths|' + (sig or 'plain'), loc(req['body']), any(k == PAY for k, n in un_r) and any(k == PAY for k, n in un_s),
-                'a path of the Abandon arm does not remove both routing entries of the abandoned ID (a waiting caller would never be released)')
+                'a path of the Abandon arm does not remove both routing entries of the abandoned ID (a waiting caller would never be released)' + early)
         had_entry = any(sem.succeeded(o, lambda v, n=n: sem.has(v, lambda x: x[0] == 'call' and x[3] == n.get('id'))) for k, n in un_r + un_s)
         untested = not any(sem.tested(o, lambda v, n=n: sem.has(v, lambda x: x[0] == 'call' and x[3] == n.get('id'))) for k, n in un_r + un_s)
-        if had_entry or untested:
+        if (had_entry or untested) and is_ab is True:
             ctx.add('K3.abandoned-id-released', 'paths|' + (sig or 'plain'), loc(req['body']), PAY in rel,
-                    'the abandoned operation\'s message ID is not released on a path where its routing entry was dropped')
+                    'the abandoned operation\'s message ID is not released on a path where its routing entry was dropped' + early)
     ctx.floor('K2', 'Abandon paths of the request arm', n_ab, 1)
     path_k2 = n_ab > 0 and all(o.ok for o in ctx.obls if o.rule == 'K2.abandon-own-id-released')
-    path_k3 = n_ab > 0 and all(o.ok for o in ctx.obls if o.rule == 'K3.abandoned-id-released')
+    path_k3 = n_ab > 0 and all(o.ok for o in ctx.obls if o.rule == 'K3.abandoned-id-released') and any(o.rule == 'K3.abandoned-id-released' for o in ctx.obls)
     ctx.add('K2.abandon-own-id-released', 'abandon arm', loc(req['body']), hir_k2 or path_k2,
             'the Abandon request\'s own message ID (never answered by the server) is not released')
     ctx.add('K3.abandoned-id-released', 'abandon arm', loc(req['body']), hir_k3 or path_k3,
